@@ -98,6 +98,9 @@ def run(spec, rec):
         comments = ["comment %d: %s" % (i, "x" * int(rng.integers(0, 30))) for i in range(ncom)]
         if ncom >= 2 and rng.random() < 0.5:
             comments[int(rng.integers(ncom))] = str(rng.choice(["", " ", "   "]))     # a blank separator line is a comment line too
+        if ncom >= 1 and rng.random() < 0.4:
+            # a comment is free text: it may itself begin with, contain or consist of the marker character
+            comments[int(rng.integers(ncom))] = str(rng.choice(["## section", "#", "#SNPs: 48213", "# generated by pipeline", "a # in the middle", "ends with #"]))
         prec = int(rng.choice([16, 16, 17, 18, 20]))
         desc = {"shape": list(shape), "values": vk, "nmask": int(np.asarray(fs.mask).sum()), "folded": folded, "labels": ids,
                 "ncomments": ncom, "precision": prec, "corners": corners, "layout": layout}
